@@ -8,13 +8,13 @@ use crate::props::c02::{run_variant, Entry, Variant};
 use rayon::prelude::*;
 use serde_json::{json, Value};
 
-const VARS: [Variant; 4] = [Variant::P2, Variant::P3, Variant::P3a, Variant::P3aShaU64];
+const VARS: [Variant; 6] = [Variant::P2, Variant::P3, Variant::P3a, Variant::P3aShaU64, Variant::P2NoHash, Variant::P3aNoHash];
 
 fn entry_for(v: Variant, alt: bool) -> Entry {
     match (v, alt) {
-        (Variant::P2, false) | (Variant::P3, false) => Entry::Item,
-        (Variant::P2, true) => Entry::HashMap,
-        (Variant::P3, true) => Entry::IdxMap,
+        (Variant::P2 | Variant::P2NoHash, false) | (Variant::P3 | Variant::P3NoHash, false) => Entry::Item,
+        (Variant::P2 | Variant::P2NoHash, true) => Entry::HashMap,
+        (Variant::P3 | Variant::P3NoHash, true) => Entry::IdxMap,
         (_, false) => Entry::IdxMap,
         (_, true) => Entry::HashMap,
     }
@@ -40,7 +40,7 @@ fn race_tables(v: Variant, m: usize, base: u64, n: u64) -> Result<TableOut, Stri
         })
         .collect();
     let rate = match v {
-        Variant::P2 => 1. / m as f64,
+        Variant::P2 | Variant::P2NoHash => 1. / m as f64,
         _ => ((m as f64) / (m as f64 - 1.)).ln(),
     };
     let mut cols: Vec<Vec<f64>> = vec![Vec::with_capacity(n as usize); m];
@@ -247,7 +247,7 @@ pub fn run(ctx: &Ctx) -> i32 {
     let n_tab: u64 = ctx.pick(1 << 19, 1 << 22);
     let ms_tab: Vec<usize> = ctx.pick(vec![2, 3, 4, 8, 16], vec![2, 3, 4, 8, 16, 64, 256]);
     let mut tdetails = Vec::new();
-    for v in [Variant::P2, Variant::P3, Variant::P3aShaU64] {
+    for v in [Variant::P2, Variant::P3, Variant::P3aShaU64, Variant::P2NoHash, Variant::P3NoHash] {
         for &m in &ms_tab {
             let n = (if v == Variant::P3aShaU64 { n_tab / 2 } else { n_tab }).min((1u64 << 25) / m as u64);
             let exceed = |o: &TableOut| -> Option<String> {
@@ -367,7 +367,7 @@ pub fn run(ctx: &Ctx) -> i32 {
                 if bad_mse {
                     // the ProbMinHash3 family couples the positions (one point per unit interval shared by all m slots); for
                     // m <= 3 and sets of 2-3 items this is a recorded finding, identified by exactly that region
-                    let key = if *v != Variant::P2 && m <= 3 && sh.roles.len() <= 3 {
+                    let key = if *v != Variant::P2 && *v != Variant::P2NoHash && m <= 3 && sh.roles.len() <= 3 {
                         "mse-above-bound:ProbMinHash3-family:m<=3:sets-of-2-3-items".to_string()
                     } else {
                         format!("mse:{:?}:{}:m={}", v, sh.name, m)
@@ -395,6 +395,10 @@ pub fn run(ctx: &Ctx) -> i32 {
                         case,
                     );
                 }
+                if cfg_i % 37 == 1 {
+                    ctx.sample(json!({"shape": sh.name, "roles_weight_in_A_and_B": sh.roles.iter().take(6).collect::<Vec<_>>(), "variant": format!("{:?}", v), "entry": format!("{:?}", entry_for(*v, alt)), "m": m,
+                        "labellings": t, "first_labelling_ids_start_at": b0, "J_P": j, "mean_fraction_equal": p.mean, "z": z}));
+                }
                 pdetails.push(json!({"shape": sh.name, "variant": format!("{:?}", v), "entry": format!("{:?}", entry_for(*v, alt)), "m": m, "labellings": t, "J_P": j, "mean": p.mean, "z": z,
                     "mse_over_bound": if bound > 0. { p.mse / bound } else { 0. }, "z_mse": zmse, "worst_win_sigma": worst_win}));
             }
@@ -404,7 +408,7 @@ pub fn run(ctx: &Ctx) -> i32 {
     let coverage = json!({
         "evaluations": evals,
         "distinct_nontrivial": pdetails.len() as u64 + tdetails.len() as u64 * n_tab / 4,
-        "rule": "(1) for every identifier of a block of 2^17 (2^21) and m in {2,3,4,8,16,(64,256)}, variants 2, 3 and 3a-Sha: the single-item sketch is computed by the real code and the per-position register (hook H2) law is compared with Exp(1/m) (variant 2) resp. Exp(ln(m/(m-1))) (variants 3) by KS, the position of the minimum with the uniform law by chi2; (2) 12 weighted-set shapes (equal weights, identical, disjoint, nested, weights differing by 1e6, 1 vs 300, 200 pseudo-random weights, common items with different weights, sets of two, three and four items) x m in {2,3,8,32,(4,128)} x 4 variants x alternating entry points (hash_item / IndexMap / HashMap) on T disjoint labellings: |mean - J_P| <= 6 se with J_P computed from its definition, MSE <= J_P(1-J_P)/m + 6 se; (3) on the same runs the share of positions won by each item of A against w/sum(w); exceedances are confirmed on a 4x larger fresh block; distinct = configurations + block elements (one per identifier, conservatively a quarter counted)",
+        "rule": "(1) for every identifier of a block of 2^17 (2^21) and m in {2,3,4,8,16,(64,256)}, variants 2, 3 (Fnv and no-op hashers) and 3a-Sha: the single-item sketch is computed by the real code and the per-position register (hook H2) law is compared with Exp(1/m) (variant 2) resp. Exp(ln(m/(m-1))) (variants 3) by KS, the position of the minimum with the uniform law by chi2; (2) 12 weighted-set shapes (equal weights, identical, disjoint, nested, weights differing by 1e6, 1 vs 300, 200 pseudo-random weights, common items with different weights, sets of two, three and four items) x m in {2,3,8,32,(4,128)} x 6 variants (2, 3, 3a, 3a-Sha, and 2 / 3a with the no-op hasher) x alternating entry points (hash_item / IndexMap / HashMap) on T disjoint labellings: |mean - J_P| <= 6 se with J_P computed from its definition, MSE <= J_P(1-J_P)/m + 6 se; (3) on the same runs the share of positions won by each item of A against w/sum(w); exceedances are confirmed on a 4x larger fresh block; distinct = configurations + block elements (one per identifier, conservatively a quarter counted)",
         "samples": [
             {"table": {"variant": "P3", "m": 8, "item": base, "weight": 1.0}},
             {"shape": {"name": "weights differing by 1e6", "J_P": jp(&shapes()[4].roles)}},
